@@ -8,6 +8,8 @@
 // After every operation the harness prints  <result> ; <raw state> V <cached flag> [R <rooted flag>].
 // Calls whose C++ behaviour would be undefined or non-terminating are not made: the harness
 // evaluates the precondition on the raw state and answers `ub` / `diverges` / `skip-cycle`.
+// Any other call runs under a watchdog (5 s) in a worker process: one that does not return answers `hang`,
+// one that kills the worker `crash:<code>`; the supervisor goes on with the next case.
 #include "common.h"
 #include <Bpp/Graph/GlobalGraph.h>
 #include <Bpp/Graph/AssociationGraphImplObserver.h>
@@ -15,6 +17,12 @@
 #include <Bpp/Graph/DAGraphImpl.h>
 #include <Bpp/Graph/AssociationTreeGraphImplObserver.h>
 #include <algorithm>
+#include <csignal>
+#include <cstdio>
+#include <cstdlib>
+#include <unistd.h>
+#include <sys/types.h>
+#include <sys/wait.h>
 #include <Bpp/Exceptions.h>
 #include <memory>
 #include <map>
@@ -299,15 +307,82 @@ struct MO : Machine {
   }
 };
 
+// The script is run by worker processes: a worker interprets the cases one after the other and
+// writes one answer line per operation to a pipe; each operation runs under a watchdog (alarm).
+// When a worker dies (the watchdog fired: `hang`; a sanitizer abort or a signal: `crash`), the
+// supervisor completes the answers of the case it was in (`hang` / `crash`, then `skipped`) and
+// starts a new worker at the next case.  The output therefore always has one line per operation.
+static const unsigned WATCHDOG = 5;
+static void onAlarm(int) { _exit(97); }
+
+static Machine* makeMachine(const Toks& t) {
+  std::string kind = t.size() > 2 ? t[2] : "dir";
+  if (kind == "dag") return new MD();
+  if (kind == "obsdir") return new MO(true);
+  if (kind == "obsundir") return new MO(false);
+  return new M(kind != "undir");
+}
+
+struct Case { Toks head; std::vector<Toks> ops; };
+
+static void worker(const std::vector<Case>& cases, size_t from, int fd) {
+  signal(SIGALRM, onAlarm);
+  FILE* out = fdopen(fd, "w");
+  for (size_t i = from; i < cases.size(); ++i) {
+    std::unique_ptr<Machine> m(makeMachine(cases[i].head));
+    for (const Toks& t : cases[i].ops) {
+      std::string a;
+      alarm(WATCHDOG);
+      try { a = m->op(t); } catch (std::exception&) { a = "exc:std"; }
+      alarm(0);
+      fputs(a.c_str(), out); fputc('\n', out);
+      fflush(out);   // a worker that is killed must not take answers with it
+    }
+  }
+  fflush(out);
+  _exit(0);
+}
+
 int main() {
-  std::unique_ptr<Machine> m(new M(true));
-  return runLoop(
-    [&](const Toks& t) {
-      std::string kind = t.size() > 2 ? t[2] : "dir";
-      if (kind == "dag") m.reset(new MD());
-      else if (kind == "obsdir") m.reset(new MO(true));
-      else if (kind == "obsundir") m.reset(new MO(false));
-      else m.reset(new M(kind != "undir"));
-    },
-    [&](const Toks& t) { return m->op(t); });
+  // read the whole script
+  std::vector<Case> cases;
+  std::string line;
+  while (std::getline(std::cin, line)) {
+    Toks t = toks(line);
+    if (t.empty() || t[0] == "#" || t[0] == "=") continue;
+    if (t[0] == "case") { cases.push_back(Case()); cases.back().head = t; continue; }
+    if (cases.empty()) { cases.push_back(Case()); cases.back().head = Toks{"case", "implicit", "dir"}; }
+    cases.back().ops.push_back(t);
+  }
+  size_t next = 0;
+  while (next < cases.size()) {
+    int fds[2];
+    if (pipe(fds) != 0) return 2;
+    fflush(stdout);
+    pid_t pid = fork();
+    if (pid < 0) return 2;
+    if (pid == 0) { close(fds[0]); worker(cases, next, fds[1]); }
+    close(fds[1]);
+    // forward the answers, keeping track of the position
+    FILE* in = fdopen(fds[0], "r");
+    size_t ci = next, oi = 0;
+    while (ci < cases.size() && cases[ci].ops.empty()) ++ci;
+    char* buf = 0; size_t cap = 0; ssize_t n;
+    while ((n = getline(&buf, &cap, in)) > 0) {
+      if (ci >= cases.size()) break;
+      fwrite(buf, 1, (size_t)n, stdout);
+      if (buf[n - 1] != '\n') fputc('\n', stdout);
+      if (++oi == cases[ci].ops.size()) { ++ci; oi = 0; while (ci < cases.size() && cases[ci].ops.empty()) ++ci; }
+    }
+    free(buf); fclose(in);
+    int st = 0; waitpid(pid, &st, 0);
+    if (ci >= cases.size()) break;
+    // the worker stopped inside case ci at operation oi
+    bool hang = WIFEXITED(st) && WEXITSTATUS(st) == 97;
+    std::string tag = hang ? "hang" : ("crash:" + std::to_string(WIFSIGNALED(st) ? -WTERMSIG(st) : WEXITSTATUS(st)));
+    for (size_t k = oi; k < cases[ci].ops.size(); ++k) puts(k == oi ? tag.c_str() : "skipped");
+    next = ci + 1;
+  }
+  fflush(stdout);
+  return 0;
 }
